@@ -119,18 +119,19 @@ def build(program, task_order, rewrite=None):
         if w.stopped or w.violations:
             return w
         apply_op(w, op, i)
+    w.task_outcome = {}
     for k in task_order:
         if k >= len(program["tasks"]):
             continue
         op = program["tasks"][k]
         if rewrite is not None:
-            op = rewrite(op)
+            op = rewrite(op, k)
             if op is None:
                 continue
         if w.stopped or w.violations:
             return w
         i += 1
-        apply_op(w, op, i)
+        w.task_outcome[k] = apply_op(w, op, i).get("outcome")
     return w
 
 
@@ -280,7 +281,12 @@ def execute(program):
         if w2.violations:
             w.violations.extend(w2.violations)
             return res()
-        if not w2.stopped:
+        commute = all(v_ == "accepted" for v_ in w.task_outcome.values()) and all(v_ == "accepted" for v_ in w2.task_outcome.values())
+        if not commute:
+            # a refused task (e.g. an input of another duration than the first one of its key) makes the outcome
+            # legitimately order-dependent: nothing is asserted about such interleavings
+            w.bump("probe_interleaving_with_refused_task")
+        if not w2.stopped and commute:
             try:
                 out2 = integ(w2, program, T)
             except HarnessError:
@@ -305,7 +311,7 @@ def execute(program):
         data_key = clamp_keys[0] if clamp_keys else None
         moved = {"i"} | ({data_key} if data_key else set())
 
-        def drop_moved(op):
+        def drop_moved(op, k_=None):
             if op["op"] == "stimulate" or (op["op"] == "clamp" and op["state"] == data_key):
                 return None
             return op
@@ -361,7 +367,9 @@ def execute(program):
 
     # 6b. t_max == explicit zero-padding / truncation
     if program.get("explicit_tmax") and T is not None and ref.externals:
-        def explicit(op):
+        def explicit(op, k_=None):
+            if op["op"] in ("stimulate", "clamp") and w.task_outcome.get(k_) != "accepted":
+                return None  # an input that was refused in the canonical execution stays out of the rewritten one
             if op["op"] in ("stimulate", "clamp"):
                 q = dict(op)
                 q["pattern_len"] = op["len"]
